@@ -30,9 +30,9 @@ theorem loadDbi_shadow_absent {c : Cfg} {snap : Snap} {txnID cutoff : Nat} {w w'
     have hne3 : shadowName n ≠ shadowName m.name := fun he => hne2 (shadowName_inj he)
     have hne4 : shadowName n ≠ m.name := fun he => by rw [← he, isPrivate_shadowName] at hpm; cases hpm
     constructor
-    · simp only [findDbi_setKvs, if_neg hne1]
+    · simp only [findDbi_setKvsMirror, if_neg hne1]
       rw [loadOpened_find_other c w m n hne2 hne1]; exact ha
-    · simp only [findDbi_setKvs, if_neg hne3]
+    · simp only [findDbi_setKvsMirror, if_neg hne3]
       rw [loadOpened_find_other c w m _ hne4 hne3]; exact hs
 
 /-- the `loadDbi` step of a message for the absent DBI `n`: the application DBI is created empty
@@ -58,11 +58,11 @@ theorem loadDbi_shadow_create {c : Cfg} {snap : Snap} {txnID cutoff : Nat} {w w'
   injection htd with htd
   subst htd
   constructor
-  · simp only [findDbi_setKvs, if_neg hne]
+  · simp only [findDbi_setKvsMirror, if_neg hne]
     unfold loadOpened
     rw [openCreate_find_ne _ _ _ _ hne, openCreate_find_self, ha]; rfl
   · refine ⟨_, s, hs', ?_⟩
-    simp only [findDbi_setKvs, if_true, loadOpened_find_shadow, hs1, Option.getD_none, Option.map_some]
+    simp only [findDbi_setKvsMirror, if_true, loadOpened_find_shadow, hs1, Option.getD_none, Option.map_some]
 
 /-- the fold of `loadDbi` (non-native) seen from a DBI `n` that does not exist yet and for which the
     snapshot has a message: the first such message creates the application DBI (empty) and its
